@@ -53,6 +53,9 @@ pub fn case(ctx: &Ctx, env: &RealEnv, dir: &std::path::Path, case: u64, seed: u6
     if case % 3 == 2 {
         return shell_case(ctx, env, dir, case, &mut rng, rep);
     }
+    if case % 12 == 7 {
+        return sigint_case(ctx, env, dir, case, &mut rng, rep);
+    }
     // ---- many independent tasks with planned output, exit codes and signals
     let ntasks = if ctx.thorough() { rng.range(8, 64) } else { rng.range(4, 20) };
     let mut p = Project { manifest: "build.ninja".into(), agent: env.agent.to_string_lossy().into_owned(), ..Default::default() };
@@ -380,5 +383,73 @@ fn parse_strace_argv(s: &str) -> Option<Vec<String>> {
         }
         i += 1;
         out.push(String::from_utf8_lossy(&cur).into_owned());
+    }
+}
+
+/// Ctrl-C: SIGINT reaches n2 and its commands; the build stops and the exit status is non-zero.
+fn sigint_case(ctx: &Ctx, env: &RealEnv, dir: &std::path::Path, case: u64, rng: &mut Rng, rep: &mut Report) {
+    let _ = ctx;
+    // a chain-free set of slow tasks, more than -j, so that some are still queued when the signal arrives
+    let ntasks = rng.range(6, 14);
+    let mut p = Project { manifest: "build.ninja".into(), agent: env.agent.to_string_lossy().into_owned(), ..Default::default() };
+    p.sources.push("in.txt".into());
+    for i in 0..ntasks {
+        p.steps.push(Step {
+            id: format!("t{}", i),
+            outs: vec![format!("o{}", i)],
+            iouts: vec![],
+            ins: vec!["in.txt".into()],
+            imps: vec![],
+            oos: vec![],
+            vals: vec![],
+            phony: false,
+            ver: 1,
+            pool: None,
+            rsp: None,
+            depfile: None,
+            msvc: false,
+            desc: Some(format!("Dt{}", i)),
+            effect: Effect::Write,
+            extra_reads: vec![],
+            discovers: false,
+        });
+    }
+    clear_dir(dir);
+    let mut w = crate::sim::World::new(dir.to_path_buf(), p);
+    w.init_sources(rng);
+    w.write_manifest();
+    std::fs::create_dir_all(dir.join(".n2v")).unwrap();
+    let mut inv = RInv::default();
+    inv.j = Some(*rng.pick(&[1usize, 2, 3]));
+    inv.k = Some(*rng.pick(&[1usize, 100]));
+    for s in &w.proj.steps {
+        inv.sleeps.insert(s.id.clone(), 150 + rng.below(100) as u64);
+    }
+    inv.sigint_after_ms = Some(60 + rng.below(120) as u64);
+    inv.timeout_s = 30;
+    scan(&mut w);
+    write_plan(env, &w, &inv, rng);
+    let out = run_real(env, &w, &inv);
+    rep.evaluations += 1;
+    rep.count("sigint_cases", 1);
+    let mk = || J::obj().with("case", J::i(case)).with("invocation", inv.to_json()).with("sigint_after_ms", J::i(inv.sigint_after_ms.unwrap_or(0))).with("trace", out.trace_json());
+    if out.timed_out {
+        rep.violation("sigint-does-not-stop-build", "n2 still running 30 s after SIGINT", mk());
+        return;
+    }
+    let Some(t_sig) = out.sigint_ns else {
+        rep.count("sigint_too_late", 1);
+        return;
+    };
+    if out.exit == Some(0) {
+        rep.violation("sigint-exit-zero", &format!("build interrupted by SIGINT but exit status 0; started {:?}", out.started()), mk());
+    }
+    // commands running when the signal arrived die; nothing may be started more than a grace period later
+    let late: Vec<String> = out.events.iter().filter(|e| e.kind == 'S' && e.ns > t_sig + 100_000_000).map(|e| e.step.clone()).collect();
+    if !late.is_empty() {
+        rep.violation("start-after-sigint", &format!("commands {:?} were started more than 100 ms after SIGINT", late), mk());
+    }
+    if out.started().len() < ntasks {
+        rep.nontrivial.insert(fnv(format!("sigint{}{:?}", ntasks, out.started()).as_bytes()));
     }
 }
